@@ -127,12 +127,25 @@ def showVal : Option Nat → String
   | none => "panic"
   | some v => toString v
 
-/-- the `node <id> …` ops: a model node folded over the deliveries -/
-def handleNode (st : St) (id : String) (args : List String) (impl : String) : St × Verdict :=
+/-- verdict on a delivery result.  `spec = false`: acceptance of something the model refuses is a
+failing input, anything else a disagreement (`cmpAccept`).  `spec = true` (the `wnode` runs, where
+the cycle verifier is the constant `Ok` and everything else the header carries is fixed by the
+consensus rules): acceptance **or** refusal against the model, or another error class, is a
+failing input; only the `some`/`none` of the returned sync head is an internal observable. -/
+def cmpDelivery (spec : Bool) (model impl : String) : Verdict :=
+  if !spec then cmpAccept model impl else
+  let norm (s : String) : String := if s.startsWith "ok" then "ok" else s
+  if norm model = norm impl then (if model = impl then .ok else .diff model) else .fail model
+
+/-- the `node <id> …` / `wnode <id> …` ops: a model node folded over the deliveries -/
+def handleNode (spec : Bool) (st : St) (id : String) (args : List String) (impl : String) : St × Verdict :=
   match args with
   | ["new", g] => match fhdr? g with
     | some g => (setNode st id (HNode.genesis .automatedTesting g), cmpModel "ok" impl)
     | none => (st, .unknown)
+  | ["newct", c, g] => match ct? c, fhdr? g with
+    | some c, some g => (setNode st id (HNode.genesis c g), cmpModel "ok" impl)
+    | _, _ => (st, .unknown)
   | _ =>
   match getNode st id with
   | none => (st, .unknown)
@@ -141,23 +154,30 @@ def handleNode (st : St) (id : String) (args : List String) (impl : String) : St
   | ["sync", skip, sh, batch] => match opts? skip, tip? sh, listOf fhdr? batch with
     | some skip, some sh, some batch =>
       match processBlockHeaders n skip sh batch with
-      | .ok (n', r) => (setNode st id n', cmpAccept (if r then "ok:some" else "ok:none") impl)
-      | .error e => (st, cmpAccept e.name impl)
+      | .ok (n', r) => (setNode st id n', cmpDelivery spec (if r then "ok:some" else "ok:none") impl)
+      | .error e => (st, cmpDelivery spec e.name impl)
     | _, _, _ => (st, .unknown)
   | ["pbh", skip, f] => match opts? skip, fhdr? f with
     | some skip, some f =>
       match nodeProcessBlockHeader n skip f with
-      | .ok n' => (setNode st id n', cmpAccept "ok" impl)
-      | .error e => (st, cmpAccept e.name impl)
+      | .ok n' => (setNode st id n', cmpDelivery spec "ok" impl)
+      | .error e => (st, cmpDelivery spec e.name impl)
     | _, _ => (st, .unknown)
   | ["pb", skip, bok, f] => match opts? skip, bool? bok, fhdr? f with
     | some skip, some bok, some f =>
       let (n', r) := nodeProcessBlock n skip f bok
-      (setNode st id n', cmpAccept (showExc NErr.name r) impl)
+      (setNode st id n', cmpDelivery spec (showExc NErr.name r) impl)
     | _, _, _ => (st, .unknown)
   | ["state"] => (st, cmpModel s!"{showTip n.headerHead} {showTip n.head}" impl)
   | ["get", k] => match nat? k with
     | some k => (st, cmpModel (match getHdr n.hdrs k with | some f => showStored f | none => "none") impl)
+    | none => (st, .unknown)
+  -- what the store-backed `DifficultyIter` yields from header `k` (first `DMA_WINDOW + 1` entries):
+  -- timestamp, difficulty, secondary_scaling and is_secondary of every header as it was delivered
+  | ["window", k] => match nat? k with
+    | some k =>
+      let w := showWindow (windowFrom n.hdrs (GV.Gen.DMA_WINDOW + 1) k)
+      (st, if spec then cmpSpec w impl else cmpModel w impl)
     | none => (st, .unknown)
   | _ => (st, .unknown)
 
@@ -195,7 +215,8 @@ def handleGlob (st : St) (args : List String) (impl : String) : St × Verdict :=
 
 def handle (st : St) (args : List String) (impl : String) : St × Verdict :=
   match args with
-  | "node" :: id :: rest => handleNode st id rest impl
+  | "node" :: id :: rest => handleNode false st id rest impl
+  | "wnode" :: id :: rest => handleNode true st id rest impl
   | "glob" :: rest => handleGlob st rest impl
   | ["damp", a, g, f] => match nat? a, nat? g, nat? f with
     | some a, some g, some f => (st, cmpModel (showOpt toString (damp a g f)) impl)
@@ -244,7 +265,9 @@ def handle (st : St) (args : List String) (impl : String) : St × Verdict :=
     | some x => (st, cmpModel (toString (fromNum (scaledDifficulty x 1))) impl)
     | none => (st, .unknown)
   | ["edge", c, e] => match ct? c, nat? e with
-    | some c, some e => (st, cmpModel s!"{showBool (isPrimary c e)} {showBool (isSecondary e)}" impl)
+    -- the classification of a proof by its edge bits is fixed by the rules for every chain type:
+    -- secondary iff 29, primary iff not 29 and at least the chain's minimum
+    | some c, some e => (st, cmpSpec s!"{showBool (isPrimary c e)} {showBool (isSecondary e)}" impl)
     | _, _ => (st, .unknown)
   | ["diter", hs] => match listOf hdr? hs with
     | some hs => (st, cmpModel (showWindow (difficultyIter hs)) impl)
